@@ -76,6 +76,9 @@ void Runner::op_start(Thread *t, int idx, const Op &op, OpRes &res) {
   };
   auto make_file = [&](int code) -> const void * {
     if (code == 2) return k->file_new(-1);
+    if (code == 3) return stdout;  // the caller's own standard streams as FILE*: descriptor numbers 1, 2, 0
+    if (code == 4) return stderr;
+    if (code == 5) return stdin;
     int fd = make_user_fd(1, 2);
     return k->file_new(fd > 0 ? fd : -1);
   };
@@ -83,8 +86,21 @@ void Runner::op_start(Thread *t, int idx, const Op &op, OpRes &res) {
   ShimRedirect *ro[3] = { &b.o.in, &b.o.out, &b.o.err };
   for (int i = 0; i < 3; i++) {
     ro[i]->type = rs[i]->type;
-    if (rs[i]->handle) { ro[i]->handle = make_user_fd(i, rs[i]->handle); cx.start_user_ofd[i] = ro[i]->handle > 0 ? user_ofd[ro[i]->handle] : -1; }
-    if (rs[i]->file) {
+    if (rs[i]->handle == 4 || rs[i]->handle == 5) {
+      // the caller's own descriptor 1 or 2 given as a handle
+      int fd = rs[i]->handle == 4 ? 1 : 2;
+      ro[i]->handle = fd;
+      FdEnt *e = k->fdent(k->caller, fd);
+      cx.start_user_ofd[i] = e ? e->ofd->id : -1;
+      cx.src_low[i] = fd;
+    } else if (rs[i]->handle) { ro[i]->handle = make_user_fd(i, rs[i]->handle); cx.start_user_ofd[i] = ro[i]->handle > 0 ? user_ofd[ro[i]->handle] : -1; }
+    if (rs[i]->file >= 3) {
+      ro[i]->file = make_file(rs[i]->file);
+      int fd = rs[i]->file == 3 ? 1 : rs[i]->file == 4 ? 2 : 0;
+      FdEnt *e = k->fdent(k->caller, fd);
+      cx.start_user_ofd[i] = e ? e->ofd->id : -1;
+      cx.src_low[i] = fd;
+    } else if (rs[i]->file) {
       ro[i]->file = make_file(rs[i]->file);
       int fd = k->files[ro[i]->file];
       cx.start_user_ofd[i] = fd > 0 ? user_ofd[fd] : -1;
@@ -478,6 +494,7 @@ void Runner::check_image(Thread *t, Proc *c, ExecImage *img) {
   for (int i = 0; i < 3; i++) {
     auto it = img->fds.find(i);
     std::string sg = fmt("stream=%d/type=%s/low-fds=%d", i, redir_name(C, eff[i]), plan.w.low_fds);
+    if (cx.src_low[i] >= 0) sg += fmt("/src=fd%d", cx.src_low[i]);  // the caller supplied its own descriptor 0-2 as handle/FILE
     if (it == img->fds.end()) { viol("C10", "stream-closed", sg, fmt("descriptor %d is closed in the child", i), idx); continue; }
     const FdSnap &f = it->second;
     int want_acc = i == 0 ? O_RDONLY : O_WRONLY;
